@@ -154,7 +154,7 @@ class Gen:
 
 
 def gen_table(rng: random.Random, schema: t.Dict[str, str], max_rows: int = 6) -> t.List[t.List[t.Any]]:
-    n = rng.choice([0, 1, 2, 3, 4, 5, max_rows])
+    n = rng.choice([0, 1, 2, 3, 4, 5, max_rows, max_rows])
     rows = []
     for _ in range(n):
         if rows and rng.random() < 0.25:
